@@ -1,7 +1,7 @@
 //! C02: skrifa (and the IFT client) are total on hostile fonts and arguments.
 use crate::c01::corpus;
 use crate::drive::{drive_bytes, Verdict};
-use fvcore::{arg_after, Report, Rng};
+use fvcore::{arg_after, guarded, Report, Rng};
 use serde_json::{json, Value};
 
 pub fn judge(name: &str, what: &str, bytes: &[u8], level: u8, ev: &mut Vec<Value>, rep: &mut Report) -> Option<u64> {
@@ -93,6 +93,126 @@ pub fn main(args: &[String]) {
             let t = std::time::Instant::now();
             let r = crate::vm::draw_composite(&font, 0);
             println!("depth {depth} fan {fan}: {r:?} in {:?}", t.elapsed());
+        }
+        Some("mem") => {
+            // MemCarve.tla family on real glyphs: hinted and unhinted draws with caller memory
+            use font_types::GlyphId;
+            use read_fonts::FontRef;
+            use skrifa::instance::{LocationRef, Size};
+            use skrifa::outline::{DrawSettings, HintingInstance, HintingOptions, OutlinePen};
+            use skrifa::MetadataProvider;
+            #[derive(Default, PartialEq)]
+            struct P(Vec<u32>);
+            impl OutlinePen for P {
+                fn move_to(&mut self, x: f32, y: f32) {
+                    self.0.extend([1, x.to_bits(), y.to_bits()]);
+                }
+                fn line_to(&mut self, x: f32, y: f32) {
+                    self.0.extend([2, x.to_bits(), y.to_bits()]);
+                }
+                fn quad_to(&mut self, a: f32, b: f32, x: f32, y: f32) {
+                    self.0.extend([3, a.to_bits(), b.to_bits(), x.to_bits(), y.to_bits()]);
+                }
+                fn curve_to(&mut self, a: f32, b: f32, c: f32, d: f32, x: f32, y: f32) {
+                    self.0.extend([4, a.to_bits(), b.to_bits(), c.to_bits(), d.to_bits(), x.to_bits(), y.to_bits()]);
+                }
+                fn close(&mut self) {
+                    self.0.push(5);
+                }
+            }
+            let path = arg_after(args, "--family").expect("--family");
+            let mut fam: Vec<Value> = vec![];
+            fvcore::tlc_stream(&path, &["MEMFAMILY"], |_, f| fam = f.as_array().unwrap().clone());
+            let fonts: Vec<(&str, Vec<u8>, Vec<u32>)> = vec![
+                ("tthint_subset", font_test_data::TTHINT_SUBSET.to_vec(), vec![0, 1, 2]),
+                ("vazirmatn_var", font_test_data::VAZIRMATN_VAR.to_vec(), vec![1, 2]),
+                ("model-program", crate::vm::build_font(&[json!([]), json!([])], &[json!({"op": "PUSH", "arg": 1}), json!({"op": "POP", "arg": 0})]), vec![1]),
+            ];
+            for (name, bytes, gids) in &fonts {
+                let f = FontRef::new(bytes).unwrap();
+                let outlines = f.outline_glyphs();
+                let loc: Vec<font_types::F2Dot14> = vec![font_types::F2Dot14::from_f32(0.5); f.axes().len()];
+                let Ok(inst) = HintingInstance::new(&outlines, Size::new(14.0), LocationRef::new(&loc), HintingOptions::default()) else { continue };
+                for gid in gids {
+                    let Some(g) = outlines.get(GlyphId::new(*gid)) else { continue };
+                    for hinted in [true, false] {
+                        let need = g.draw_memory_size(if hinted { skrifa::outline::Hinting::Embedded } else { skrifa::outline::Hinting::None });
+                        fn settings<'a>(hinted: bool, inst: &'a HintingInstance, loc: &'a [font_types::F2Dot14], m: Option<&'a mut [u8]>) -> DrawSettings<'a> {
+                            if hinted {
+                                DrawSettings::hinted(inst, false).with_memory(m)
+                            } else {
+                                DrawSettings::unhinted(Size::new(14.0), LocationRef::new(loc)).with_memory(m)
+                            }
+                        }
+                        let mut base = P::default();
+                        let base_ok = g.draw(settings(hinted, &inst, &loc, None), &mut base).is_ok();
+                        for d in &fam {
+                            let mis = d["mis"].as_u64().unwrap() as usize;
+                            let k = d["k"].as_u64().unwrap() as usize;
+                            let len = match d["mode"].as_str().unwrap() {
+                                "below" => need.saturating_sub(k),
+                                "abs" => k.min(need),
+                                _ => need * k / 8,
+                            };
+                            rep.evaluations += 1;
+                            let mut buf = vec![0x5Au8; need + 16];
+                            let off = (8 - (buf.as_ptr() as usize % 8)) % 8 + mis;
+                            let mut pen = P::default();
+                            let case = json!({"kind": "mem-case", "font": name, "glyph": gid, "hinted": hinted, "need": need, "misalignment": mis, "len": len});
+                            let r = guarded(|| g.draw(settings(hinted, &inst, &loc, Some(&mut buf[off..off + len])), &mut pen).map(|_| ()).map_err(|e| format!("{e:?}")));
+                            match r {
+                                Err(p) => rep.violation(&format!("{name} glyph {gid}: drawing with {len} of {need} bytes of caller memory at misalignment {mis} panicked: {p}"), case),
+                                Ok(res) => {
+                                    let outcome = match &res {
+                                        Ok(()) => "ok".to_string(),
+                                        Err(e) if e.contains("InsufficientMemory") => "InsufficientMemory".to_string(),
+                                        Err(e) => e.clone(),
+                                    };
+                                    let must_fit = len >= need && base_ok;
+                                    let same = res.is_err() || pen == base;
+                                    if (must_fit && outcome != "ok") || !same || (outcome != "ok" && outcome != "InsufficientMemory" && base_ok) {
+                                        rep.violation(&format!("{name} glyph {gid} ({}hinted): {len} of {need} advertised bytes at misalignment {mis}: {outcome}, same path: {same}", if hinted { "" } else { "un" }), case);
+                                    }
+                                    if base_ok {
+                                        ev.push(json!({"op": "mem", "outcome": outcome, "must_fit": must_fit, "same": same}));
+                                    }
+                                    rep.distinct += 1;
+                                }
+                            }
+                        }
+                    }
+                }
+            }
+        }
+        Some("deep-child") => {
+            // run inside a child process: a chain of n nested PaintGlyph tables / n nested composites
+            let n: usize = arg_after(args, "--n").unwrap().parse().unwrap();
+            let what = arg_after(args, "--what").unwrap();
+            let out = if what == "paint" { crate::vm::deep_paint(n) } else { crate::vm::deep_composite(n) };
+            println!("DEEP {out}");
+            std::process::exit(0);
+        }
+        Some("deep") => {
+            let exe = std::env::current_exe().unwrap();
+            for what in ["paint", "composite"] {
+                for n in [10usize, 63, 64, 65, 70, 1000, 20_000, 200_000] {
+                    if what == "composite" && n > 60_000 {
+                        continue;
+                    }
+                    rep.evaluations += 1;
+                    let o = std::process::Command::new(&exe).args(["c02", "deep-child", "--what", what, "--n", &n.to_string(), "--out", "/dev/null"]).output().expect("spawn child");
+                    let stdout = String::from_utf8_lossy(&o.stdout).to_string();
+                    let line = stdout.lines().find(|l| l.starts_with("DEEP ")).map(|l| l[5..].to_string());
+                    let case = json!({"kind": "deep-case", "what": what, "n": n});
+                    match (o.status.success(), line) {
+                        (true, Some(l)) if l.starts_with("ok") || l.starts_with("error") => {
+                            ev.push(json!({"op": "deep", "what": what, "n": n, "outcome": if l.starts_with("ok") { "ok" } else { "error" }}));
+                            rep.distinct += 1;
+                        }
+                        (_, l) => rep.violation(&format!("a chain of {n} nested {what} nodes ended the process ({:?}) instead of returning a value: {:?}", o.status, l), case),
+                    }
+                }
+            }
         }
         Some("graphs") => {
             let path = arg_after(args, "--cases").expect("--cases");
